@@ -444,7 +444,7 @@ class DictArithmetic(dict):
 
         """
         if isinstance(other, dict):
-            for k, v in other.items():
+            for k, v in tuple(other.items()):
                 self[k] -= v
         else:
             self[()] -= other
